@@ -275,8 +275,8 @@ def nack_encoder(F, D, res):
                                         one = Lin.from_key(x[1][1])
                                         diffs = [y for y in atoms_deep(amt) if y[0] == "mod" and y[2] == 65536]
                                         # ... and it is OR-ed into the word in progress: the new value is exactly `word | (1 << amt)`
-                                        ored = any(y[0] == "bitop" and y[1] == "BitOr" and nv == Lin.atom(y) and
-                                                   {y[2], y[3]} == {Lin.atom(a).key(), Lin.atom(x).key()} for y in nv.t)
+                                        ored = any(y[0] == "opq" and isinstance(y[1], tuple) and y[1][:2] == ("bitop", "BitOr") and nv == Lin.atom(y) and
+                                                   {y[1][2], y[1][3]} == {Lin.atom(a).key(), Lin.atom(x).key()} for y in nv.t)
                                         if one == lin(1) and diffs and ored:
                                             dd = Lin.atom(diffs[0])
                                             okb = solver.entails(delta, f_and(flit(eq(amt, dd - 1)), flit(ge(dd, 1)), flit(le(dd, NACK_WINDOW))))
